@@ -557,6 +557,15 @@ def bounded(tier, seed):
         inp = dict(code=name, size=list(size), deformation=defo, kwargs=kw)
         try:
             why = native_matrix_contract(BC.make(name, size, defo, kw), rnd)
+            if why is None and defo:
+                # the same contract on an object that was USED before being deformed in place (cached data computed beforehand)
+                used = BC.make(name, size)
+                for attr in ('stabilizer_matrix', 'x_indices', 'z_indices', 'is_css', 'logicals_x', 'd'):
+                    getattr(used, attr)
+                used.deform(defo, **kw)
+                why = native_matrix_contract(used, rnd)
+                if why:
+                    why = 'after use-then-deform: ' + why
         except Exception as e:      # noqa
             why = 'raises %s: %s' % (type(e).__name__, e)
         ev += 1; nt.add((name, tuple(size), defo, tuple(sorted(kw.items()))))
